@@ -30,7 +30,7 @@ ANCHORS = ["coxeter.extern.polytri.polytri:triangulate", "coxeter.shapes.polygon
            "coxeter.shapes.polyhedron:Polyhedron.circumsphere", "coxeter.shapes.polyhedron:Polyhedron.insphere",
            "coxeter.shapes.polygon:Polygon.circumcircle", "coxeter.shapes.polygon:Polygon.incircle",
            "coxeter.shapes.convex_polyhedron:ConvexPolyhedron._combine_simplices", "coxeter.shapes.polygon:_is_simple"]
-REQUIRED_MONITORS = ["covariance", "is_inside-covariance", "form-factor-covariance", "construct-g(x)"]
+REQUIRED_MONITORS = ["covariance", "is_inside-covariance", "form-factor-covariance", "construct-g(x)", "distance_to_surface-covariance"]
 REQUIRED_CLASSES = ["g:rotation", "g:translation", "g:scale-small", "g:scale-large", "g:permutation", "ConvexPolyhedron", "Polyhedron",
                     "Polygon", "ConvexPolygon", "ConvexSpheropolygon", "ConvexSpheropolyhedron"]
 LOOSE = {"minimal_bounding_sphere", "minimal_bounding_sphere_radius", "minimal_bounding_circle", "minimal_bounding_circle_radius"}
@@ -362,6 +362,20 @@ def run_case(i, rng, rec, tier, state):
                 except Exception as e:
                     rec.violation("is_inside-covariance", f"{which}.is_inside/raises-{type(e).__name__}-under-" + "+".join(g.kinds or ["relabel"]),
                                   dict(info, exc=repr(e)[:300]))
+            # radial distance: d'(theta) = s d(theta - phi) for in-plane rotations of xy shapes
+            if which in ("ConvexPolygon", "ConvexSpheropolygon") and b.get("xy") and ("rotation" not in g.kinds):
+                nrm0 = np.asarray(b["normal"], float)
+                if nrm0[2] > 1 - 1e-12:
+                    phi = getattr(g, "inplane_angle", 0.0) if "rotation-inplane" in g.kinds else 0.0
+                    th = np.concatenate((rng.uniform(-4 * np.pi, 4 * np.pi, size=40), np.arange(-8, 9) * np.pi / 4))
+                    try:
+                        da = np.asarray(x.distance_to_surface(th - phi), float)
+                        db = np.asarray(gx.distance_to_surface(th.copy()), float)
+                        ok = da.shape == db.shape and bool(np.all(np.abs(db - g.s * da) <= 1e-8 * g.s * b["size"] * (1 + 10 * (which == "ConvexSpheropolygon"))))
+                        rec.check("distance_to_surface-covariance", ok, f"{which}.distance_to_surface/not-covariant-under-" + "+".join(g.kinds or ["relabel"]),
+                                  lambda: dict(info, theta=th[:6], on_x=da[:6], on_gx=db[:6]))
+                    except Exception as e:
+                        rec.violation("distance_to_surface-covariance", f"{which}.distance_to_surface/raises-{type(e).__name__}", dict(info, exc=repr(e)[:200]))
             # form factor acquires s^3 (s^2) and the phase
             if hasattr(x, "compute_form_factor_amplitude") and which in ("ConvexPolyhedron", "Polyhedron", "Polygon", "ConvexPolygon"):
                 q = fpr.probe_q(x)
